@@ -50,6 +50,8 @@ F = [
  ("C01","F26","fixed",commit("fenced code line indented less"),"known/C01/F26-fence-line-padding.json","'+' / TAB SPACE '~~~' / TAB '=': a fenced code content line with fewer columns than the fence indent, carrying tab padding inside a list item, produced a segment that starts past its end: panic while rendering (found by the thorough tier of C03, present on the pinned tree)"),
  ("C02","F27","fixed",commit("two-space hard break escapes"),"known/C02/F27-stale-escape-after-hard-break.json","a backslash followed by a two-space hard break left the escape flag set: the first character of the next line was treated as escaped ('x\\  ' newline '\\*a*' rendered \\<em>a</em>)"),
  ("C11","F27","fixed",commit("two-space hard break escapes"),"known/C11/F27-linkify-stale-escape.json","the same stale escape flag made Linkify change '\\  ' newline '\\~' (found by the thorough tier of C11)"),
+ ("C02","F28","fixed",commit("invalid title line"),"known/C02/F28-invalid-title-line.json","'[foo]: /url' followed by the line '\"title\" ok': the line is a paragraph (spec example 209) but the definition still recorded the title (reported by a seeding sub-agent, reproduced and fixed)"),
+ ("C02","F28b","fixed",commit("invalid title line"),"known/C02/F28b-invalid-title-line-dest-own-line.json","the same with the destination on a line of its own: that line was also left in the paragraph"),
 ]
 EXTRA = os.path.join(os.path.dirname(__file__), "known_extra.json")
 out = []
